@@ -143,6 +143,50 @@ def strided_cells(tier, parts):
     return cells
 
 
+def hilbert_cells(tier, parts, kmax_quick=10, kmax_thorough=13):
+    cells = []
+    kmax = kmax_thorough if tier == "thorough" else kmax_quick
+    base = {"DIMS_IN": 2, "IN_SCALAR_T": "size_t"}
+    if "rot" in parts:
+        cells.append(Cell("hilbert.rot", "hilbert", "h_hilbert_rot", defines=dict(base, HILBERT_K=1),
+                          enforce="hilbert_rot", extra_checks=["--unsigned-overflow-check"],
+                          closes_loops="loop-free: complete for all 64-bit arguments", replay=None))
+    for k in range(0, kmax + 1):
+        tmo = 120 if k <= 8 else 1800
+        be = (("sat", tmo), ("cadical", tmo))
+        bound = "curve order k = %d (grid side 2^%d); complete for this grid" % (k, k)
+        cl = "unwinding to k+1 with unwinding assertion (complete for this cell)"
+        if "square" in parts:
+            d = dict(base, HILBERT_K=k, VERIF_HILBERT_SQUARE=1)
+            cells.append(Cell("hilbert.square.index.k%d" % k, "hilbert", "h_hilbert_index", defines=d, enforce="hilbert_calculate_index",
+                              replace=["hilbert_rot"], unwind=max(k + 2, 3), backends=be, object_bits=12, kind="bounded", bound=bound, closes_loops=cl,
+                              extra_checks=["--unsigned-overflow-check"], replay="hilbert"))
+            cells.append(Cell("hilbert.square.injective.k%d" % k, "hilbert", "h_hilbert_injective", defines=d,
+                              replace=["hilbert_rot"], unwind=max(k + 2, 3), backends=be, object_bits=12, kind="bounded", bound=bound, closes_loops=cl, replay="hilbert"))
+            cells.append(Cell("hilbert.square.adjacent.k%d" % k, "hilbert", "h_hilbert_adjacent", defines=d,
+                              replace=["hilbert_rot"], unwind=max(k + 2, 3), backends=be, object_bits=12, kind="bounded", bound=bound, closes_loops=cl, replay="hilbert"))
+        if "box" in parts:
+            d = dict(base, HILBERT_K=k)
+            bb = "every extent vector with max extent in (2^%d, 2^%d]" % (k - 1, k) if k else "extent vector (1,1)"
+            cells.append(Cell("hilbert.box.index.k%d" % k, "hilbert", "h_hilbert_index", defines=d, enforce="hilbert_calculate_index",
+                              replace=["hilbert_rot"], unwind=max(k + 2, 3), backends=be, object_bits=12, kind="bounded", bound=bb, closes_loops=cl,
+                              extra_checks=["--unsigned-overflow-check"], replay="hilbert"))
+            cells.append(Cell("hilbert.box.injective.k%d" % k, "hilbert", "h_hilbert_injective", defines=d,
+                              replace=["hilbert_rot"], unwind=max(k + 2, 3), backends=be, object_bits=12, kind="bounded", bound=bb, closes_loops=cl, replay="hilbert"))
+            if k <= 8:
+                for fl in ("debug", "ndebug"):
+                    cells.append(Cell("hilbert.at.k%d.%s" % (k, fl), "hilbert", "h_hilbert_at", defines=d, enforce="hilbert_at", flavour=fl,
+                                      replace=["hilbert_rot"], unwind=max(k + 2, 3), backends=be, object_bits=12, kind="bounded", bound=bb, closes_loops=cl, replay="hilbert"))
+        if "alloc" in parts:
+            d = dict(base, HILBERT_K=k)
+            for which in ("copy", "ctor"):
+                cells.append(Cell("hilbert.alloc.%s.k%d" % (which, k), "hilbert", "h_hilbert_alloc_%s" % which, defines=d,
+                                  enforce="hilbert_alloc_size_%s" % which, replace=["round_pow2", "ipow"], unwind=5, kind="bounded",
+                                  bound="max extent in (2^%d, 2^%d]" % (k - 1, k), extra_checks=["--unsigned-overflow-check"],
+                                  closes_loops="max_element stub loop over N (complete)"))
+    return cells
+
+
 # ------------------------------------------------------------------ C18
 def cells_C18(tier, consts):
     cells = []
@@ -200,6 +244,7 @@ PROPS["C18"] = {
 def cells_C14(tier, consts):
     cells = morton_cells(tier, ["index"])
     cells += strided_cells(tier, ["formula"])
+    cells += hilbert_cells(tier, ["rot", "square"])
     return cells
 
 
@@ -217,6 +262,7 @@ PROPS["C14"] = {
 def cells_C01(tier, consts):
     cells = morton_cells(tier, ["at", "injective", "sizing", "alloc"])
     cells += strided_cells(tier, ["formula", "bound8", "bounded64", "alloc"])
+    cells += hilbert_cells(tier, ["rot", "box", "alloc"], kmax_quick=8, kmax_thorough=11)
     return cells
 
 
